@@ -633,6 +633,15 @@ def parseExtras (prop : String) (c : ParseCtx) (v : Verdict) : R Verdict := do
         v := v.addDetail "got_sx" (Json.str ((c.stage1.head?.bind (·.ast)).map Spec.PL.sxAidl |>.getD "<no tree>"))
       v := { v with nontrivial := true, dist := bump v.dist s!"sx_len~{min (sx.length / 200 * 200) 2000}" }
     | none => pure ()
+    -- hypothesis of `C02Layout.layout_independent`: this layout and the reference layout of the same
+    -- document have the same token sequence; its conclusion, seen on the model: equal trees after erasure
+    match (j.getObjVal? "ref_text").toOption.bind (·.getStr?.toOption) with
+    | some ref =>
+      for (_, text) in c.files do
+        let t1 := Lr.lexToks Parse.tables (text.toList.length + 1) text.toList 0
+        let t2 := Lr.lexToks Parse.tables (ref.toList.length + 1) ref.toList 0
+        v := v.addAssume "samelex" (t1.isSome && t1 == t2)
+    | none => pure ()
   if prop == "C03" || prop == "all" then
     let s1 := c.stage1
     let wfOk := verdict != "wf" || s1.all fun fr => fr.ast.isSome && fr.diags.isEmpty
